@@ -119,7 +119,7 @@ def c02(run):
             # a sprout seed was evaluated by its parent's level, everything else by the deme's own
             lvl = d["level"] - 1 if what == "sprout seed" else d["level"]
             tv = objs[lvl](np.array(x))
-            if f == tv:
+            if f == tv or (f != f and tv != tv):  # (both NaN: the stored value is the objective's value)
                 continue
             if f == sentinel and exhausted:
                 continue
@@ -177,6 +177,7 @@ def c04_boundary(state):
     def on_boundary(run, tree):
         mx = run.spec["maximize"]
         allf = [i.fitness for _, d in tree.all_demes for i in d.all_individuals]
+        allf = [f for f in allf if f == f]  # NaN is a legal value, ordered as worst: it never is the best of anything else
         if not allf:
             return
         ref = best_of(mx, allf)
@@ -186,7 +187,7 @@ def c04_boundary(state):
         if not any(i is bi or (tuple(i.genome) == tuple(bi.genome) and i.fitness == bi.fitness) for _, d in tree.all_demes for i in d.all_individuals):
             state["viol"].append(V("C04/tree-best-not-member", "tree.best_individual is not one of the stored individuals"))
         for _, d in tree.all_demes:
-            fs = [i.fitness for i in d.all_individuals]
+            fs = [i.fitness for i in d.all_individuals if i.fitness == i.fitness]
             if fs and d.best_individual.fitness != best_of(mx, fs):
                 state["viol"].append(V("C04/deme-best-not-best", f"deme {d.id}: best_individual.fitness={d.best_individual.fitness}, best in its history {best_of(mx, fs)}"))
         if state.get("prev") is not None and better(mx, state["prev"], bi.fitness):
@@ -211,7 +212,7 @@ def c04_boundary(state):
                 state["viol"].append(V("C04/reported-best-is-not-an-objective-value", f"boundary {tree.metaepoch_count}: deme {d.id} (level {d.level}) reports a best individual with fitness {got!r}, the objective of that level gives {want!r} at its genome"))
                 break
         # best ever observed by non-local engines
-        obs = [v for r in {id(r): r for r in run.objs["recs"]}.values() for who, _, v in r.calls if run.deme_objs.get(deme_of(who)) is None or type(run.deme_objs[deme_of(who)]).__name__ != "LocalDeme"]
+        obs = [v for r in {id(r): r for r in run.objs["recs"]}.values() for who, _, v in r.calls if v == v and (run.deme_objs.get(deme_of(who)) is None or type(run.deme_objs[deme_of(who)]).__name__ != "LocalDeme")]
         if obs and better(mx, best_of(mx, obs), bi.fitness):
             state["viol"].append(V("C04/observed-better-than-reported", f"boundary {tree.metaepoch_count}: objective returned {best_of(mx, obs)} (non-local engine) but reported best is {bi.fitness}"))
 
